@@ -30,12 +30,35 @@ def _subst(e, mapping):
     return T().visit(ast.parse(ast.unparse(e), mode='eval').body)
 
 
-def _resolver(ctx, f):
+def _resolver(ctx, f, rich=False):
     env = ctx.ev.module_env(f.module)
 
+    def plain(v):
+        from sa.consteval import VDict
+        if isinstance(v, (int, bool)):
+            return v
+        if rich and isinstance(v, VDict):
+            v = v.d
+        if rich and isinstance(v, dict):
+            out = {}
+            for k, x in v.items():
+                if not isinstance(k, (int, bool)) or not isinstance(x, (int, bool)):
+                    return None
+                out[k] = x
+            return out
+        if rich and isinstance(v, (tuple, list)) and all(isinstance(x, (int, bool)) for x in v):
+            return tuple(v)
+        return None
+
     def res(e):
+        if rich and isinstance(e, ast.Attribute) and isinstance(e.value, ast.Name) and e.value.id in ('self', 'cls') and f.cls is not None:
+            try:
+                _, v = ctx.ev.class_attr(f.cls, e.attr)
+                return plain(v)
+            except Exception:
+                return None
         v = ctx.ev.eval(f.module, e, env, f.cls)
-        return v if isinstance(v, (int, bool)) else None
+        return plain(v)
     return res
 
 
@@ -372,41 +395,76 @@ def rule_content_guards(ctx):
             ctx.ob('W.content', f, 'unused-bits count `%s` limited to 0..7 before use' % norm(pv), ok, det, node=c)
     if n < 3:
         raise AnalysisError('expected 3 padding uses in the BIT STRING decoder, found %d' % n)
-    # OID sub-identifier octets
+    # OID sub-identifier octets: outcome table of the arc loop body over the first octet of a sub-identifier
+    from sa import region
     f = ctx.func(D + 'ObjectIdentifierPayloadDecoder.valueDecoder')
-    ch = _find_if(f, lambda x: isinstance(x.test, ast.Compare) and norm(x.test.left) == 'subId' and any(isinstance(w, ast.While) for w in ancestors(x, f.node)))
-    if len(ch) != 1:
-        raise AnalysisError('sub-identifier chain not found')
-    sets = _chain_sets(ctx, f, ch[0], 'subId', range(256))
-    kinds = {}
-    for test, body, acc in sets:
-        if raises_in(body) and not any(isinstance(s, ast.While) for s in body):
-            kinds['raise'] = kinds.get('raise', set()) | acc
-        elif any(isinstance(s, ast.While) for s in body):
-            kinds['multi'] = kinds.get('multi', set()) | acc
-        elif any('oid +=' in norm(s) for s in body):
-            kinds['single'] = kinds.get('single', set()) | acc
-        elif acc:
-            kinds['fallthrough'] = kinds.get('fallthrough', set()) | acc
-    ok = kinds.get('single') == set(range(128)) and kinds.get('multi') == set(range(129, 256)) and kinds.get('raise') == {128} \
-        and not kinds.get('fallthrough')
+    outer = [w for w in walk_own(f.node) if isinstance(w, ast.While) and not any(isinstance(a_, ast.While) for a_ in ancestors(w, f.node))
+             and any(isinstance(x, ast.While) for st_ in w.body for x in ast.walk(st_))]
+    if len(outer) != 1:
+        raise AnalysisError('sub-identifier loop not found in %s' % f.short)
+    outer = outer[0]
+    first = [i for i, st_ in enumerate(outer.body) if isinstance(st_, ast.Assign) and isinstance(st_.value, ast.Subscript)
+             and isinstance(st_.targets[0], ast.Name)]
+    if not first:
+        raise AnalysisError('sub-identifier octet read not found in %s' % f.short)
+    var = outer.body[first[0]].targets[0].id
+    arcvar = [norm(st_.target) for st_ in ast.walk(outer) if isinstance(st_, ast.AugAssign) and isinstance(st_.value, ast.Tuple)]
+    arcvar = arcvar[0] if arcvar else 'oid'
+
+    def mark(st_, env):
+        if isinstance(st_, ast.While):
+            return 'multi'
+        if isinstance(st_, (ast.AugAssign, ast.Assign)) and norm(st_.target if isinstance(st_, ast.AugAssign) else st_.targets[0]) == arcvar:
+            return 'single' if var in env else 'multi'
+        if isinstance(st_, ast.Assign) and norm(st_.targets[0]) == var:
+            return 'multi'          # the octet variable is re-used as the accumulator of a multi-octet arc
+        return None
+    try:
+        tab = region.table(outer.body[first[0] + 1:], var, range(256), mark)
+    except region.Undecided as x:
+        raise AnalysisError('sub-identifier region in %s: %s' % (f.short, x))
+    kinds = region.groups(tab)
+    raised = set()
+    for k, v in kinds.items():
+        if k and k.startswith('raise:'):
+            raised |= v
+    ok = kinds.get('single') == set(range(128)) and kinds.get('multi') == set(range(129, 256)) and raised == {128}
     ctx.ob('W.content', f, 'sub-identifier first octet: 0..127 single, 129..255 multi-octet, 128 (leading zero) refused', ok,
-           dict((k, _fmt(v)) for k, v in kinds.items()), node=ch[0])
-    inner = [w for w in ast.walk(ch[0]) if isinstance(w, ast.While)]
+           dict((str(k), _fmt(v)) for k, v in kinds.items()), node=outer)
+    inner = [w for st_ in outer.body for w in ast.walk(st_) if isinstance(w, ast.While)]
     if inner:
-        acc = intexpr.accept_set(inner[0].test, 'nextSubId', range(256))
+        tv = [n_.id for n_ in ast.walk(inner[0].test) if isinstance(n_, ast.Name)]
+        if len(set(tv)) != 1:
+            raise AnalysisError('continuation test `%s` not over one variable' % norm(inner[0].test))
+        acc = intexpr.accept_set(inner[0].test, tv[0], range(256))
         ctx.ob('W.content', f, 'multi-octet arc continues while bit 8 is set', acc == set(range(128, 256)), 'continues on {%s}' % _fmt(acc), node=inner[0])
-    arcs = _find_if(f, lambda x: 'oid[0]' in norm(x.test) and any('oid = ' in norm(s) for s in x.body))
-    if len(arcs) != 1:
-        raise AnalysisError('first-arcs chain not found')
-    sets = _chain_sets(ctx, f, arcs[0], 'oid[0]', range(0, 400))
-    got = []
-    for test, body, acc in sets:
-        txt = [norm(s) for s in body]
-        got.append((_fmt(acc), txt[0][:40] if txt else ''))
-    want = [('0..39', 'oid = (0,) + oid'), ('40..79', 'oid = (1, oid[0] - 40) + oid[1:]'), ('80..399', 'oid = (2, oid[0] - 80) + oid[1:]')]
-    ctx.ob('W.content', f, 'first sub-identifier split into the two leading arcs (X.690 8.19.4)', got[:3] == want and got[3][0] == '{}',
-           str(got), node=arcs[0])
+    # the two leading arcs: table of the statements between the loop and the result over the first sub-identifier
+    blk = outer.parent.body if hasattr(outer.parent, 'body') and outer in outer.parent.body else None
+    if blk is None:
+        raise AnalysisError('first-arcs region not found')
+    after = blk[blk.index(outer) + 1:]
+
+    def stop(st_, env):
+        if isinstance(st_, (ast.For, ast.Return)) or any(isinstance(x, ast.Yield) for x in ast.walk(st_)):
+            return 'end'
+        return None
+
+    def bind(env, v):
+        env[arcvar] = (v, 'a2', 'a3')
+    try:
+        res = {}
+        for v in range(0, ctx.scale(400, 4000)):
+            env = {}
+            bind(env, v)
+            lab, env = region.walk(after, env, stop)
+            res[v] = env.get(arcvar) if lab == 'end' else lab
+    except region.Undecided as x:
+        raise AnalysisError('first-arcs region in %s: %s' % (f.short, x))
+    want = dict((v, ((0, v) if v < 40 else ((1, v - 40) if v < 80 else (2, v - 80))) + ('a2', 'a3')) for v in res)
+    bad = sorted(v for v in res if res[v] != want[v])
+    ctx.ob('W.content', f, 'first sub-identifier split into the two leading arcs (X.690 8.19.4)', not bad,
+           'first sub-identifier %d becomes %r, X.690 8.19.4 says %r' % (bad[0], res[bad[0]], want[bad[0]]) if bad else
+           '0..39 -> (0, n); 40..79 -> (1, n-40); 80.. -> (2, n-80)', node=after[0] if after else outer)
     # NULL: content must be empty
     f = ctx.func(D + 'NullPayloadDecoder.valueDecoder')
     lv = [n.target.id for n in walk_own(f.node) if isinstance(n, ast.For) and isinstance(n.target, ast.Name) and
